@@ -40,7 +40,7 @@ def err_class(e) -> str:
         return "hang"
     if isinstance(e, EncodeError):
         return "encode"
-    if isinstance(e, DecodeMismatch):
+    if isinstance(e, DecodeMismatch) and isinstance(e, DecodeError):     # (a mismatch IS a decode error: callers catch DecodeError)
         return "mismatch"
     if isinstance(e, DecodeError):
         return "decode"
